@@ -45,6 +45,11 @@ def check(ctx):
         else:
             v = None
         ok, why = _bounded_by(v, maxd, f)
+        if not ok and v is not None:
+            from props.C10 import _from_new_code
+            if _from_new_code(p, f, v) or p.is_new_function(f):
+                raise AnalysisBroken('C09: the depth limit is defined at %s from `%s`, computed by code the reference tree did not have; '
+                                     'whether it is clamped there is not followed' % (f.loc(n), Norm_s(f, v)))
         ctx.ob('C09.R1.depth-clamped', '%s:%s' % (short(f.name), why), ok,
                'definition of Search::_search_depth is a constant <= MAX_DEPTH or std::min(..., MAX_DEPTH) (%s)' % why,
                site=f.loc(n))
@@ -486,6 +491,11 @@ def _limits_poll(ctx, p):
            'the stop flag that every node visit tests first '
            '(%d orderings)%s' % (n, '' if not bad2 else ' — ' + '; '.join(bad2[:3])), site=f.loc(suffix[0]))
     # and every node visit asks: search() and quiescence_search() call it on every activation before any recursion (C06.R4)
+
+
+def Norm_s(f, v):
+    from rules.norm import Norm
+    return Norm(f, inline=False).s(v)[:80]
 
 
 def _bounded_by(v, maxd, f=None):
